@@ -2,6 +2,7 @@ package props
 
 import (
 	"fmt"
+	"github.com/mithrandie/csvq/lib/value"
 	"path/filepath"
 	"strings"
 
@@ -19,7 +20,13 @@ func init() {
 		Setup: cursorSetup, Exec: cursorExec, Random: cursorRandom, Sig: cursorSig,
 		Assume: []string{"the variables after an out-of-range FETCH are not compared (the manual says NULL, the code leaves them; the property statement does not fix it)"},
 	}
-	Registry["C16"] = &Check{Level: "model_checking", Run: func(r *core.Run) { runActionCheck(r, sp) }}
+	Registry["C16"] = &Check{Level: "model_checking", Run: func(r *core.Run) {
+		// the poison switch of lib/value (build tag verif): a discarded value is never re-issued but marked, so that
+		// a FETCH that gives away an integer it only read shows at once
+		value.VerifPoison = true
+		defer func() { value.VerifPoison = false }()
+		runActionCheck(r, sp)
+	}}
 }
 
 func cursorSetup(dir string, init Action) []string {
@@ -31,7 +38,7 @@ func cursorSetup(dir string, init Action) []string {
 		fmt.Fprintf(&b, "%d,%d\n", aInt(m, "id"), aInt(m, "v"))
 	}
 	writeFile(filepath.Join(dir, "t.csv"), b.String())
-	return []string{"VAR @a, @b;"}
+	return []string{"VAR @a, @b, @p, @spare;"}
 }
 
 func cursorQuery(q string) string {
@@ -67,12 +74,29 @@ func cursorExec(p *sut.Proc, a Action) Out {
 	case "fetch":
 		pos := aStr(a, "pos")
 		sql := "FETCH " + pos
+		viaVar := false
 		if pos == "ABSOLUTE" || pos == "RELATIVE" {
-			sql += fmt.Sprintf(" %d", aInt(a, "n"))
+			// every other time the position is a stored integer (a variable), not a literal: FETCH must only read it
+			cnt, _ := p.User["fetches"].(int)
+			p.User["fetches"] = cnt + 1
+			if cnt%2 == 1 {
+				viaVar = true
+				p.Exec(fmt.Sprintf("@p := %d;", aInt(a, "n")))
+				sql += " @p"
+			} else {
+				sql += fmt.Sprintf(" %d", aInt(a, "n"))
+			}
 		}
 		sql += " " + c + " INTO @a, @b;"
 		if o, ok := stmtOut(p, sql); !ok {
 			return o
+		}
+		if viaVar {
+			// some further integer evaluations (a recycled object would be handed out now), then the variable again
+			r0 := p.Exec("@spare := 41 + 1; @spare := 1000 + 7; PRINT @p;")
+			if got := printed(r0.Out); len(got) != 1 || got[0] != fmt.Sprint(aInt(a, "n")) {
+				return Out{K: "val", Vals: []string{"position-variable-changed-to:" + strings.Join(got, ",")}}
+			}
 		}
 		r := p.Exec("PRINT CURSOR " + c + " IS IN RANGE;")
 		if r.Err != "" {
